@@ -221,8 +221,9 @@ impl Exporter {
                 guard += 1;
             }
             if self.v9_o.contains_key(&id) {
-                // id space exhausted for this kind: redefine an existing template of this kind
-                id = *self.v9_t.keys().next().unwrap_or(&id);
+                // id space exhausted for this kind: redefine an existing template of this kind,
+                // or leave the small id space
+                id = self.v9_t.keys().next().cloned().unwrap_or(260);
             }
         }
         let nf_max = if rng.chance(1, 10) { cfg.max_fields.max(1) * 3 } else { cfg.max_fields.max(1) };
@@ -262,7 +263,7 @@ impl Exporter {
                 guard += 1;
             }
             if self.v9_t.contains_key(&id) {
-                id = *self.v9_o.keys().next().unwrap_or(&id);
+                id = self.v9_o.keys().next().cloned().unwrap_or(261);
             }
         }
         let ns = 1 + rng.usize(3);
@@ -300,11 +301,12 @@ impl Exporter {
     }
 
     pub fn v9_data(&self, rng: &mut Rng, cfg: &Cfg, t: &V9Tmpl) -> V9FlowSet {
-        let n = self.n_records(rng, cfg);
+        let rs = t.rec_size();
+        // keep one flowset well inside the 16-bit length field
+        let n = self.n_records(rng, cfg).min((12000 / rs.max(1)).max(1));
         let records: Vec<Vec<Vec<u8>>> = (0..n)
             .map(|_| t.fields.iter().map(|(ty, l)| gen_value(rng, v9_dt(*ty), *l as usize, cfg)).collect())
             .collect();
-        let rs = t.rec_size();
         let padding = self.padding(rng, cfg, rs.saturating_sub(1));
         V9FlowSet::Data { tmpl: t.clone(), records, padding }
     }
@@ -443,7 +445,7 @@ impl Exporter {
                 guard += 1;
             }
             if clash(self, id) {
-                id = existing.first().cloned().unwrap_or(id);
+                id = existing.first().cloned().unwrap_or(if options { 261 } else { 260 });
             }
         }
         id
@@ -490,7 +492,7 @@ impl Exporter {
             let r: Vec<Cell> = fields.iter().map(|s| self.ipfix_cell(rng, cfg, s)).collect();
             size += r.iter().map(|c| c.wire().len()).sum::<usize>();
             records.push(r);
-            if size > 20000 {
+            if size > 12000 {
                 break;
             }
         }
